@@ -257,20 +257,26 @@ class PyCommand(Command):
     a plan ``{job_name: n_failures}`` counted in memory (``mode`` 'status' -> FAILED CommandOutput,
     'raise' -> exception)."""
 
-    def __init__(self, step, fn, chaos: Chaos | None = None, log: ExecLog | None = None, fail_plan=None, mode="status"):
+    def __init__(self, step, fn, chaos: Chaos | None = None, log: ExecLog | None = None, fail_plan=None, mode="status", durations=None):
         super().__init__(step)
         self.fn = fn
         self.chaos = chaos
         self.log = log or ExecLog()
         self.fail_plan = dict(fail_plan or {})
         self.mode = mode
+        # per-job durations in loop turns, consumed cyclically in job-start order (log-wide counter):
+        # long enough for jobs of one step to overlap and to finish in any order
+        self.durations = list(durations or [])
 
     async def execute(self, job: Job) -> CommandOutput:
         self.log.started.append(job.name)
         self.log.running.add(job.name)
         self.log.max_concurrent = max(self.log.max_concurrent, len(self.log.running))
         try:
-            if self.chaos is not None:
+            if self.durations:
+                for _ in range(self.durations[(len(self.log.started) - 1) % len(self.durations)]):
+                    await asyncio.sleep(0)
+            elif self.chaos is not None:
                 for _ in range(self.chaos.draw() * 2):
                     await asyncio.sleep(0)
             if self.fail_plan.get(job.name, 0) > 0:
@@ -297,7 +303,7 @@ def local_deploy_step(wf: Workflow, workdir: str) -> DeployStep:
 
 
 def exec_pipeline(wf: Workflow, name: str, in_ports: dict[str, Port], fn, workdir: str | None, chaos=None, log=None, fail_plan=None,
-                  mode="status", targets=None, sched_kwargs=None) -> tuple[Port, ExecuteStep, ScheduleStep]:
+                  mode="status", targets=None, sched_kwargs=None, durations=None) -> tuple[Port, ExecuteStep, ScheduleStep]:
     """DeployStep(s) -> ScheduleStep -> ExecuteStep(PyCommand(fn)); returns the output port.
     ``targets`` (list of Target) defaults to the local target with ``workdir``."""
     targets = targets or [LocalTarget(workdir=workdir)]
@@ -317,5 +323,5 @@ def exec_pipeline(wf: Workflow, name: str, in_ports: dict[str, Port], fn, workdi
     out = wf.create_port()
     ex.add_output_port("out", out)
     ex.output_processors["out"] = DefaultCommandOutputProcessor(name="out", workflow=wf)
-    ex.command = PyCommand(ex, fn, chaos=chaos, log=log, fail_plan=fail_plan, mode=mode)
+    ex.command = PyCommand(ex, fn, chaos=chaos, log=log, fail_plan=fail_plan, mode=mode, durations=durations)
     return out, ex, sched
